@@ -747,3 +747,131 @@ func ZZ_C11_Election() {
 	zz.MapOrderNondet(false)
 	zz.Assert(err2 == nil && ctx2.fileText == ctx.fileText, "repeat-yields-identical-bytes")
 }
+
+// ---------------------------------------------------------------------------
+// Layout templates: small files with the formatting corners the quantifiers name
+// (2/3-space and tab indentation, a multi-line summary as last line, whitespace-
+// only lines around the record, CRLF, missing final newline, a second record in
+// another style), crossed with the inserting commands.  Oracle: klog's own parse
+// of the file before the command (the parser is the subject of C01) plus the
+// expected delta.
+// ---------------------------------------------------------------------------
+
+func zzEntryTexts(r klog.Record) []string {
+	var out []string
+	for _, e := range r.Entries() {
+		t := zzEntryTextOf(e)
+		for _, l := range e.Summary().Lines() {
+			t += "|" + l
+		}
+		out = append(out, t)
+	}
+	return out
+}
+
+func zzEntryTextOf(e klog.Entry) string {
+	return klog.Unbox[string](&e,
+		func(r klog.Range) string { return r.ToString() },
+		func(d klog.Duration) string { return d.ToString() },
+		func(o klog.OpenRange) string { return o.ToString() })
+}
+
+// ZZ_Mut_Layouts: C03 / C04 / C11 on layout templates.
+func ZZ_Mut_Layouts() {
+	ind := []string{"    ", "  ", "   ", "\t"}[zz.Choose(4)]
+	eol := []string{"\n", "\r\n"}[zz.Choose(2)]
+	dg := zz.String("dg", 1)
+	zz.Assume(dg[0] >= '1' && dg[0] <= '9')
+	body := "2020-01-01" + eol
+	switch zz.Choose(5) {
+	case 0: // entry with a two-line summary as the record's last lines
+		body += ind + dg + "h work" + eol + ind + ind + "more text" + eol
+	case 1: // continuation line with extra indentation
+		body += ind + "8:00 - 9:0" + dg + eol + ind + ind + "  aligned" + eol
+	case 2: // record summary only
+		body += "Summary " + dg + eol
+	case 3: // open range last
+		body += ind + "30m" + eol + ind + "1" + dg + ":00 - ? #t" + eol
+	case 4: // plain
+		body += ind + dg + "m" + eol
+	}
+	pre := []string{"", eol, "    " + eol, "\t" + eol + eol}[zz.Choose(4)]
+	post := ""
+	switch zz.Choose(4) {
+	case 1:
+		post = eol
+	case 2:
+		post = "  " + eol
+	case 3: // a following record in another style
+		other := "\t"
+		if ind == "\t" {
+			other = "  "
+		}
+		post = eol + "2020-01-05" + eol + other + "1h" + eol
+	}
+	file := pre + body + post
+	if post == "" && zz.Choose(2) == 1 {
+		file = file[:len(file)-len(eol)] // no final newline
+	}
+	now := gotime.Date(2020, 1, 1, 12, 0, 0, 0, gotime.UTC)
+	ctx := newZZContext(file, now)
+	rsBefore, _, errs := parser.NewSerialParser().Parse(file)
+	zz.Assert(errs == nil && len(rsBefore) >= 1, "template-is-valid")
+	if errs != nil {
+		return
+	}
+	before := zzEntryTexts(rsBefore[0])
+	hadOpen := rsBefore[0].OpenRange() != nil
+	var err app.Error
+	want := ""
+	cmd := zz.Choose(2)
+	switch cmd {
+	case 0:
+		err = (&Track{Entry: klog.EntrySummary{"2h tracked"}}).Run(ctx)
+		want = "2h|tracked"
+	case 1:
+		t, _ := klog.NewTime(15, 0)
+		c := &Start{}
+		c.Time = t
+		c.SummaryText = klog.EntrySummary{"go", "on"}
+		err = c.Run(ctx)
+		want = "15:00 - ?|go|on"
+	}
+	if cmd == 1 && hadOpen {
+		zz.Assert(err != nil, "start-fails-iff-record-already-has-open-range")
+		zz.Assert(ctx.fileText == file, "failed-command-leaves-file-untouched")
+		return
+	}
+	zz.Assert(err == nil, "command-succeeds-iff-model-accepts")
+	if err != nil {
+		return
+	}
+	rs := zzParseOK(ctx.fileText)
+	zz.Assert(len(rs) == len(rsBefore), "record-count")
+	if len(rs) != len(rsBefore) {
+		return
+	}
+	after := zzEntryTexts(rs[0])
+	zz.Assert(len(after) == len(before)+1, "entry-count")
+	if len(after) == len(before)+1 {
+		for i := range before {
+			zz.Assert(after[i] == before[i], "entry-kind-and-value")
+		}
+		zz.Assert(after[len(before)] == want, "entry-summary-text")
+	}
+	if len(rs) > 1 {
+		zz.Assert(len(rs[1].Entries()) == len(rsBefore[1].Entries()), "entry-count")
+	}
+	// C03: pure insertion; C11: the record's own indentation and line ending
+	_, added := zzOnlyInsertion(file, ctx.fileText)
+	expectInd := ind
+	if len(before) == 0 {
+		expectInd = "" // no style of its own: any valid style (checked by the generator-based harness)
+	}
+	for _, l := range added {
+		if expectInd != "" {
+			zz.Assert(len(l) > len(expectInd) && l[:len(expectInd)] == expectInd && l[len(expectInd)] != ' ' || (len(l) > 2*len(expectInd) && l[:2*len(expectInd)] == expectInd+expectInd), "inserted-line-uses-record-or-file-indentation")
+		}
+		zz.Assert(zzEnding(l) == eol || zzEnding(l) == "", "inserted-line-uses-file-line-ending")
+	}
+}
